@@ -1,7 +1,8 @@
 (* emit mode: "<id> <cfg sexp> <spec sexp>" -> predicted files "<id> F <hexpath> <hexraw>" after "<id> R ok", or "<id> R err:<kind>" *)
 open Util
 open Sexp
-let fuel = let rec f n = if n = 0 then Model.O else Model.S (f (n - 1)) in f 200
+let nat_of = let rec f n = if n = 0 then Model.O else Model.S (f (n - 1)) in f
+let fuel = nat_of 200
 
 let cfg = function
   | L [A "cfg"; n; L ds; ex] -> { Model.c_name = atom_str n; c_derives = List.map atom_str ds; c_examples = Specio.b ex }
@@ -28,6 +29,10 @@ let run () =
     let both = Sexp.parse ("(" ^ rest ^ ")") in
     let (c, sp) = match both with L [c; s] -> (cfg c, Specio.spec s) | _ -> failwith "emit line" in
     (* the whole tree comes from the Coq function Crate.generate (extraction, pruning, every file) *)
+    (* Spec/Wf.v: do the hypotheses of the totality theorem (emit_crate_total, depth 60 <= fuel 200) hold for this input? *)
+    (match Model.extract_spec fuel sp with
+     | Model.Ok h -> Printf.printf "%s W %s\n" id (if Model.hir_ok (nat_of 60) h (Model.cli_config c) then "t" else "f")
+     | Model.Err _ -> Printf.printf "%s W x\n" id);
     match Model.generate fuel sp c (templates ()) with
     | Model.Err e -> Printf.printf "%s R err:%s\n" id (err_name e)
     | Model.Ok files ->
